@@ -391,11 +391,9 @@ def build_model(pid, extract_v, driver_ml, extra_ml=()):
     h = hashlib.sha256()
     for s in srcs:
         h.update(open(s, "rb").read())
-    # depend on every .v (cheap, conservative)
-    for root, _, names in sorted(os.walk(os.path.join(COQ, "theories"))):
-        for nm in sorted(names):
-            if nm.endswith(".v"):
-                h.update(open(os.path.join(root, nm), "rb").read())
+    # depend on the dependency closure of the extraction file
+    for f in coq_closure([os.path.join(COQ, extract_v)]):
+        h.update(open(f, "rb").read())
     stamp = os.path.join(out, "stamp")
     if os.path.exists(exe) and os.path.exists(stamp) and open(stamp).read() == h.hexdigest():
         return exe
